@@ -198,6 +198,15 @@ func (v *collator_[V]) compareMaps(first ref.Value, second ref.Value) bool {
 }
 
 func (v *collator_[V]) compareIntrinsics(first, second ref.Value) bool {
+	if first.Type() == second.Type() {
+		switch first.Kind() {
+		case ref.Float32, ref.Float64:
+			// Two "not a number" values are equal, as they are ranked.
+			return v.rankFloats(first.Float(), second.Float()) == EqualRank
+		case ref.Complex64, ref.Complex128:
+			return v.rankComplex(first.Complex(), second.Complex()) == EqualRank
+		}
+	}
 	return first.Interface() == second.Interface()
 }
 
@@ -398,30 +407,24 @@ func (v *collator_[V]) rankBytes(first, second byte) Rank {
 }
 
 func (v *collator_[V]) rankComplex(first, second complex128) Rank {
-	if first == second {
-		return EqualRank
+	// Normalize any negative zeros so that equal values have equal phases.
+	first = complex(real(first)+0, imag(first)+0)
+	second = complex(real(second)+0, imag(second)+0)
+
+	// Rank by magnitude, then by phase.
+	var rank = v.rankFloats(cmp.Abs(first), cmp.Abs(second))
+	if rank == EqualRank {
+		rank = v.rankFloats(cmp.Phase(first), cmp.Phase(second))
 	}
-	switch {
-	case cmp.Abs(first) < cmp.Abs(second):
-		// The magnitude of the first vector is less than the second.
-		return LesserRank
-	case cmp.Abs(first) > cmp.Abs(second):
-		// The magnitude of the first vector is greater than the second.
-		return GreaterRank
-	default:
-		// The magnitudes of the vectors are equal.
-		switch {
-		case cmp.Phase(first) < cmp.Phase(second):
-			// The phase of the first vector is less than the second.
-			return LesserRank
-		case cmp.Phase(first) > cmp.Phase(second):
-			// The phase of the first vector is greater than the second.
-			return GreaterRank
-		default:
-			// The phases of the vectors are also equal.
-			return EqualRank
-		}
+
+	// Different values may still round to the same magnitude and phase.
+	if rank == EqualRank {
+		rank = v.rankFloats(real(first), real(second))
 	}
+	if rank == EqualRank {
+		rank = v.rankFloats(imag(first), imag(second))
+	}
+	return rank
 }
 
 func (v *collator_[V]) rankFloats(first, second float64) Rank {
@@ -429,6 +432,16 @@ func (v *collator_[V]) rankFloats(first, second float64) Rank {
 		return LesserRank
 	}
 	if first > second {
+		return GreaterRank
+	}
+	// A value that is "not a number" is ranked before every number, and equal
+	// to any other such value, so that the ranking remains a consistent order.
+	var firstIsNaN = first != first
+	var secondIsNaN = second != second
+	if firstIsNaN && !secondIsNaN {
+		return LesserRank
+	}
+	if secondIsNaN && !firstIsNaN {
 		return GreaterRank
 	}
 	return EqualRank
